@@ -205,6 +205,25 @@ def tlc(module, cfg=None, workers=None, simulate=None, depth=None, coverage=Fals
     return res
 
 
+def tlaps(module, timeout=600):
+    """Prove spec/<module>.tla from scratch with tlapm (a scratch copy, no cached fingerprints).  Returns the number of
+    obligations proved; raises when the prover cannot be run or leaves an obligation open."""
+    os.makedirs(os.path.join(CACHE, "tlc"), exist_ok=True)
+    pd = tempfile.mkdtemp(prefix="tlaps", dir=os.path.join(CACHE, "tlc"))
+    try:
+        shutil.copy(os.path.join(SPEC, module + ".tla"), pd)
+        try:
+            pr = subprocess.run(["tlapm", "--cleanfp", module + ".tla"], cwd=pd, capture_output=True, text=True, timeout=timeout)
+        except (OSError, subprocess.TimeoutExpired) as ex:
+            raise RuntimeError("tlapm could not be run on %s.tla: %s" % (module, ex))
+        m = re.search(r"All (\d+) obligations? proved", pr.stdout + pr.stderr)
+        if not m:
+            raise RuntimeError("%s.tla: TLAPS did not prove every obligation: %s" % (module, (pr.stdout + pr.stderr)[-400:]))
+        return int(m.group(1))
+    finally:
+        shutil.rmtree(pd, ignore_errors=True)
+
+
 def tlc_ok(res):
     return res.rc == 0
 
